@@ -45,7 +45,7 @@ func audioInv(a *Audio) bool {
 	if !(k.volumeLeft <= 7 && k.volumeRight <= 7) {
 		return false
 	}
-	return a.ticks >= 1 && a.ticks <= 4194305 && a.frameSeqTicks <= 512
+	return a.ticks >= 1 && a.ticks <= 4194305 && a.frameSeqTicks <= 511
 }
 
 // register indices used by the harnesses: 0..20 = NR10,11,12,13,14, NR21,22,23,24, NR30,31,32,33,34, NR41,42,43,44, NR50,51, NR52
